@@ -665,3 +665,21 @@ func StoredOnce(al *ssa.Alloc) (ssa.Value, bool) {
 	}
 	return val, true
 }
+
+// CmpOrient is Cmp with the operands oriented so that x satisfies isX where one of
+// them does: a comparison written  y op' x  is returned as  x op y. (Cmp itself moves
+// a constant operand to the right; between two computed operands the written order
+// carries no meaning and an atom must not depend on it.)
+func CmpOrient(v ssa.Value, isX func(ssa.Value) bool) (op token.Token, x, y ssa.Value, ok bool) {
+	op, x, y, ok = Cmp(v)
+	if !ok {
+		return
+	}
+	if !isX(x) && isX(y) {
+		return Swap(op), y, x, true
+	}
+	return
+}
+
+// IsLen reports whether v is len(·) of something (conversions stripped).
+func IsLen(v ssa.Value) bool { _, ok := LenOf(v); return ok }
